@@ -5,6 +5,7 @@ import sys
 
 PLAN = {
     # property: (engine, quick runs, thorough runs)
+    'C11': ('gridsim', 3000, 80000),
     'C13': ('fcsim', 2400, 60000),
     'C10': ('fcsim', 2400, 60000),
     'C04': ('catsim', 4000, 100000),
